@@ -62,7 +62,7 @@ static Plan c17_gen(uint64_t seed, int tier, uint64_t index) {
             break;
         }
         case 6: p.ops.push_back(Op("inject", (int64_t) r.below(2), (int64_t) r.below(100), (int64_t) r.below(50), 0, r.chance(1, 2) ? "garbage" : "replay")); break;
-        case 7: p.ops.push_back(Op("close", (int64_t) r.below(2))); break;
+        case 7: if (r.chance(1, 2)) { p.ops.push_back(Op("hreq")); p.ops.push_back(Op("pump")); } else { p.ops.push_back(Op("close", (int64_t) r.below(2))); } break;
         case 8: p.ops.push_back(Op("steps", (int64_t) (1 + r.below(4)))); break;
         }
     }
@@ -83,6 +83,21 @@ static std::vector<Plan> c17_fixed(int tier) {
             Plan p; p.seed = 171000 + (uint64_t) (si * 2 + dir);
             p.cfg["eng"] = 0; p.cfg["ver"] = si < 3 ? 2 : 1; p.cfg["suite"] = S[si]; p.cfg["sid_kind"] = KK_EC256;
             p.ops.push_back(Op("hs")); p.ops.push_back(Op("burst", dir, 65536 + 300)); p.ops.push_back(Op("send", 1 - dir, 30)); p.ops.push_back(Op("pump"));
+            v.push_back(p);
+        } }
+    }
+    // an alert the connection survives (no_renegotiation warning, answer to a HelloRequest), then more records from the same sender
+    {
+        static const struct { int ver; uint16_t suite; } HR[] = { { 4, TLS_RSA_WITH_AES_128_GCM_SHA256 }, { 4, TLS_ECDHE_RSA_WITH_AES_128_CBC_SHA256 }, { 3, TLS_RSA_WITH_AES_128_CBC_SHA }, { 1, TLS_ECDHE_RSA_WITH_AES_128_GCM_SHA256 },
+                                                            { 1, TLS_RSA_WITH_AES_128_CBC_SHA256 }, { 0, TLS_RSA_WITH_AES_128_CBC_SHA } };
+        for (int i = 0; i < 6; i++) { for (int pre = 0; pre < 2; pre++) {
+            Plan p; p.seed = 172000 + (uint64_t) (i * 2 + pre);
+            p.cfg["eng"] = 0; p.cfg["ver"] = HR[i].ver; p.cfg["suite"] = HR[i].suite; if (HR[i].ver >= 3) { p.cfg["pmtu"] = 1500; }
+            p.ops.push_back(Op("hs"));
+            if (pre) { p.ops.push_back(Op("send", 0, 40)); p.ops.push_back(Op("send", 1, 40)); p.ops.push_back(Op("pump")); }
+            p.ops.push_back(Op("hreq")); p.ops.push_back(Op("pump"));
+            p.ops.push_back(Op("send", 0, 50)); p.ops.push_back(Op("send", 1, 50)); p.ops.push_back(Op("pump")); p.ops.push_back(Op("send", 0, 60)); p.ops.push_back(Op("pump"));
+            p.ops.push_back(Op("hreq")); p.ops.push_back(Op("pump")); p.ops.push_back(Op("send", 0, 70)); p.ops.push_back(Op("close", 0)); p.ops.push_back(Op("pump"));
             v.push_back(p);
         } }
     }
